@@ -73,7 +73,8 @@ def generate(seed: int, tier: str):
     steps = []
     n_steps = rng.choice([1, 1, 2, 2, 3, 4])
     for i in range(n_steps):
-        steps.append({"src": rng.random(), "b": b0 if i == 0 else rng.choice([1, 2, 2, 3, b0]), "compute": rng.random() < 0.5})
+        steps.append({"src": rng.random(), "b": b0 if i == 0 else rng.choice([1, 2, 2, 3, b0]), "compute": rng.random() < 0.5,
+                      "use_first": rng.choice([None, None, "load", "average"])})  # the source loader may have been used before it is binned
     sb = rng.choice([3, 4, 5])
     # scales are dyadic so that pos/scale stays exact (DESIGN 6.3 #10: what a non-dyadic scale does to order-0 windows is C02's business)
     return {
@@ -302,6 +303,13 @@ def run_history(sc, sim):
             b = st["b"]
             if min(min(im.shape) for im in node.images.values()) // b < 2:
                 continue
+            if st.get("use_first"):
+                from acryo._utils import SubvolumeOutOfBoundError
+
+                try:
+                    src.load(0) if st["use_first"] == "load" else src.average()
+                except SubvolumeOutOfBoundError:
+                    pass
             before = [digest(l.molecules) + repr(l.scale) for l, _ in pool]
             new = src.binning(b, compute=st["compute"])
             after = [digest(l.molecules) + repr(l.scale) for l, _ in pool]
